@@ -332,7 +332,7 @@ class PreProcessor:
             self.do_h5_cache_recreation,
             self.cache_dir,
             self.gene_in,
-            self.te_in,
+            self.te_revised,  # NB the TE cache is derived from the revised file
             chrom_id,
             self._logger,
         )
